@@ -74,6 +74,13 @@ func registerSyncTimeModels(e *Engine) {
 		if l.rby == nil {
 			l.rby = map[int]int{}
 		}
+		if l.rby[me] > 0 && fr.p.race != nil && fr.p.race.active && !fr.p.race.rlockReported {
+			// a goroutine read-locking a RWMutex it already read-holds deadlocks as soon as a writer queues up between
+			// the two RLock calls (sync.RWMutex blocks new readers while a writer waits); reported inside verifRace,
+			// where the native replay runs the other closure (a writer) concurrently in a stress loop
+			fr.p.race.rlockReported = true
+			fr.p.violationCandidate(fr, "deadlock", fr.p.h.Prop+"/recursive-rlock", "recursive read lock: RLock of "+l.name+" by a goroutine that already read-holds it @ "+fr.stack())
+		}
 		l.rby[me]++
 		l.readers++
 		return nil
